@@ -555,8 +555,9 @@ func (p *Parser) parseASCIIFast(maxSize int) (secs2.Item, error) {
 	// use size hint to parse ASCII item.
 	// this is the optimized method when the size hint is provided.
 	if maxSize > 0 {
-		// the data length should be >= maxSize + 2 (quote + right angle bracket)
-		if len(p.data) < maxSize+2 {
+		// the data length should be >= maxSize + 2 (quote + right angle bracket); compared as
+		// len-2 < maxSize because maxSize+2 overflows int on 32-bit targets for hints near MaxInt32
+		if len(p.data)-2 < maxSize {
 			return nil, p.errf("ASCII item size overflow, expect (%d+2), got %d", maxSize, len(p.data))
 		}
 
